@@ -103,33 +103,35 @@ Qed.
 
 (* a test of the post-processing loop is harmless when the field it excuses either has no action, or is popped elsewhere,
    or is known to be absent *)
-Definition harmless (wskips sskips : list skipc) (sg_first : bool) (c : skipc) : bool :=
+Definition harmless (wskips sskips sgsel : list skipc) (sg_first : bool) (c : skipc) : bool :=
   match c with
   | SkSuppressAbsent => true
-  | SkSubgroup => skip_in c wskips || skip_in c sskips || sg_first
+  | SkSubgroup => skip_in c wskips || skip_in c sskips || (sg_first && skip_in c sgsel)
   | _ => skip_in c wskips || skip_in c sskips
   end.
-Definition skips_ok (wskips sskips pskips : list skipc) (sg_first : bool) : bool :=
-  forallb (harmless wskips sskips sg_first) pskips.
+Definition skips_ok (wskips sskips pskips sgsel : list skipc) (sg_first : bool) : bool :=
+  forallb (harmless wskips sskips sgsel sg_first) pskips.
 
 Section General.
   Variable wskips sskips pskips : list skipc.
   Variable sg_first : bool.
   Variable coll_err : err.
   Variable coll_dfl_ok : bool.
+  Variable sgsel : list skipc.
+  Variable sup_none : bool.
 
   Notation w_fields' := (w_fields wskips).
   Notation pairs' := (pairs wskips).
   Notation registered' := (registered wskips sskips).
   Notation reg_dests' := (reg_dests wskips sskips).
-  Notation subgroup_dests' := (subgroup_dests wskips).
-  Notation remove_subgroups' := (remove_subgroups wskips sg_first).
+  Notation subgroup_dests' := (subgroup_dests wskips sgsel).
+  Notation remove_subgroups' := (remove_subgroups wskips sg_first sgsel).
   Notation fill_step' := (fill_step pskips).
   Notation fill' := (fill wskips pskips).
-  Notation inst_one' := (inst_one wskips coll_err coll_dfl_ok).
-  Notation inst_all' := (inst_all wskips coll_err coll_dfl_ok).
-  Notation instantiate' := (instantiate wskips coll_err coll_dfl_ok).
-  Notation post' := (post wskips pskips sg_first coll_err coll_dfl_ok).
+  Notation inst_one' := (inst_one wskips pskips coll_err coll_dfl_ok sup_none).
+  Notation inst_all' := (inst_all wskips pskips coll_err coll_dfl_ok sup_none).
+  Notation instantiate' := (instantiate wskips pskips coll_err coll_dfl_ok sup_none).
+  Notation post' := (post wskips pskips sg_first coll_err coll_dfl_ok sgsel sup_none).
 
   Definition field_dests (forest : list wrapper) : list string := map (fun wf => f_dest (snd wf)) (pairs' forest).
   (* the key _remove_subgroups_from_namespace may add *)
@@ -298,7 +300,7 @@ Section General.
   Qed.
 
   Lemma registered_static_absent forest n n1 w f :
-    skips_ok wskips sskips pskips sg_first = true ->
+    skips_ok wskips sskips pskips sgsel sg_first = true ->
     remove_subgroups' forest n = Ok n1 ->
     In (w, f) (registered' forest) ->
     forall c, In c pskips -> static_holds f c = true -> ~ In (f_dest f) (keys n1).
@@ -318,8 +320,10 @@ Section General.
       assert (existsb (static_holds f) sskips = true) by (apply existsb_exists; exists c; split; assumption). congruence. }
     destruct c; simpl in Hok, Hs; rewrite ?Hnotw, ?Hnots in Hok; simpl in Hok; try discriminate.
     (* SkSubgroup, subgroups removed first *)
-    apply (remove_subgroups_absent forest n n1 Hok Hrm).
-    unfold subgroup_dests. apply in_map_iff. exists (w, f). split; [reflexivity|]. apply filter_In. split; [exact Hpair | exact Hs].
+    apply andb_true_iff in Hok as [Hfirst Hsel]. apply skip_in_In in Hsel.
+    apply (remove_subgroups_absent forest n n1 Hfirst Hrm).
+    unfold subgroup_dests. apply in_map_iff. exists (w, f). split; [reflexivity|]. apply filter_In. split; [exact Hpair|].
+    simpl. apply existsb_exists. exists SkSubgroup. split; [exact Hsel | exact Hs].
   Qed.
 
   (* ---------- instantiation ---------- *)
@@ -327,7 +331,7 @@ Section General.
     inst_one' forest dfl n1 w m d = Ok m' -> forall k, In k (keys m') <-> In k (keys m) \/ (k = d /\ In d (keys m')).
   Proof.
     unfold inst_one. intros H k.
-    destruct (w_suppress w && negb (sup_nonempty wskips forest d n1)).
+    destruct (w_suppress w && sup_none && negb (sup_nonempty wskips pskips forest d n1)).
     { injection H as <-. split; [left; assumption | intros [H|[-> H]]; assumption]. }
     destruct (mem d m) eqn:Em; simpl in H.
     - destruct (coll_dfl_ok && str_in (hd "" (w_dests w)) dfl); [|discriminate]. injection H as <-.
@@ -343,7 +347,7 @@ Section General.
     ~ In d ks -> inst_one' forest dfl n1 w m d = Ok m' -> restrict ks m' = restrict ks m.
   Proof.
     unfold inst_one. intros Hd H.
-    destruct (w_suppress w && negb (sup_nonempty wskips forest d n1)); [injection H as <-; reflexivity|].
+    destruct (w_suppress w && sup_none && negb (sup_nonempty wskips pskips forest d n1)); [injection H as <-; reflexivity|].
     destruct (mem d m); simpl in H.
     - destruct (coll_dfl_ok && str_in (hd "" (w_dests w)) dfl); [|discriminate]. injection H as <-. apply restrict_set_key. exact Hd.
     - injection H as <-. rewrite restrict_app, restrict_single, app_nil_r; [reflexivity | exact Hd].
@@ -380,7 +384,7 @@ Section General.
   (* every destination that is not suppressed away gets its attribute *)
   Lemma inst_all_present forest dfl n1 l m m' :
     inst_all' forest dfl n1 l m = Ok m' ->
-    forall w d, In (w, d) l -> w_suppress w && negb (sup_nonempty wskips forest d n1) = false -> In d (keys m').
+    forall w d, In (w, d) l -> w_suppress w && sup_none && negb (sup_nonempty wskips pskips forest d n1) = false -> In d (keys m').
   Proof.
     revert m. induction l as [|[w0 d0] r IH]; intros m H w d Hin Hs; simpl in H; [destruct Hin|].
     destruct (inst_one' forest dfl n1 w0 m d0) as [m1|e] eqn:E; [|discriminate].
@@ -404,7 +408,7 @@ Section General.
     - eexists. reflexivity.
     - inversion Hnd as [|? ? Hnot Hnd']; subst.
       assert (E : exists m1, inst_one' forest dfl n1 w m d = Ok m1).
-      { unfold inst_one. destruct (w_suppress w && negb (sup_nonempty wskips forest d n1)); [eexists; reflexivity|].
+      { unfold inst_one. destruct (w_suppress w && sup_none && negb (sup_nonempty wskips pskips forest d n1)); [eexists; reflexivity|].
         destruct (mem d m) eqn:Em; simpl; [|eexists; reflexivity].
         assert (Hf := Hfree (w, d) (or_introl eq_refl) (proj1 (mem_In _ _) Em)). simpl in Hf. rewrite Hf. eexists. reflexivity. }
       destruct E as [m1 E]. rewrite E. apply IH; [exact Hnd'|].
@@ -426,7 +430,7 @@ Section General.
       + injection Heq as -> ->. unfold inst_one in E. rewrite Hsup in E. simpl in E.
         apply mem_In in Hk. rewrite Hk in E. simpl in E. rewrite Hd in E. discriminate.
       + apply (IH _ Hin); [|exact Hsup | exact Hd]. apply (inst_one_keys _ _ _ _ _ _ _ E). left. exact Hk.
-    - unfold inst_one in E. destruct (w_suppress w0 && negb (sup_nonempty wskips forest d0 n1)); [discriminate|].
+    - unfold inst_one in E. destruct (w_suppress w0 && sup_none && negb (sup_nonempty wskips pskips forest d0 n1)); [discriminate|].
       destruct (mem d0 m); simpl in E; [|discriminate].
       destruct (coll_dfl_ok && str_in (hd "" (w_dests w0)) dfl); [discriminate|]. symmetry. exact E.
   Qed.
@@ -479,7 +483,7 @@ Section General.
   Qed.
 
   Theorem post_no_leak forest dfl n n' :
-    skips_ok wskips sskips pskips sg_first = true ->
+    skips_ok wskips sskips pskips sgsel sg_first = true ->
     (forall d, In d (reg_dests' forest) -> ~ In d (top_dests forest)) ->
     post' forest dfl n = Ok n' ->
     forall d, In d (reg_dests' forest) -> ~ In d (keys n').
@@ -523,11 +527,11 @@ Proof.
     apply keys_remove. split; [exact Hin | intros ->; apply Hk; left; reflexivity].
 Qed.
 
-Lemma remove_subgroups_keep wskips sg_first forest n n1 k :
-  remove_subgroups wskips sg_first forest n = Ok n1 -> ~ In k (subgroup_dests wskips forest) -> In k (keys n) -> In k (keys n1).
+Lemma remove_subgroups_keep wskips sg_first sgsel forest n n1 k :
+  remove_subgroups wskips sg_first sgsel forest n = Ok n1 -> ~ In k (subgroup_dests wskips sgsel forest) -> In k (keys n) -> In k (keys n1).
 Proof.
   intros H Hk Hin. unfold remove_subgroups in H. destruct sg_first; [|injection H as <-; exact Hin].
-  destruct (subgroup_dests wskips forest) as [|d0 r]; [injection H as <-; exact Hin|].
+  destruct (subgroup_dests wskips sgsel forest) as [|d0 r]; [injection H as <-; exact Hin|].
   apply (pop_all_keep _ _ _ k H Hk). destruct (mem "subgroups" n); [exact Hin|]. rewrite keys_app. apply in_or_app. left. exact Hin.
 Qed.
 
@@ -544,17 +548,24 @@ Qed.
 (* the model instantiated with the regenerated facts                       *)
 (* ====================================================================== *)
 Definition field_dests_gen := field_dests wrapper_skips_gen.
-Definition sg_key_gen := sg_key wrapper_skips_gen subgroups_removed_first_gen.
-Definition touched_gen := touched wrapper_skips_gen subgroups_removed_first_gen.
-Definition post_clean_gen := post_clean wrapper_skips_gen subgroups_removed_first_gen collision_defaults_overwrite_gen.
+Definition sg_key_gen := sg_key wrapper_skips_gen subgroups_removed_first_gen subgroup_select_gen.
+Definition touched_gen := touched wrapper_skips_gen subgroups_removed_first_gen subgroup_select_gen.
+Definition post_clean_gen := post_clean wrapper_skips_gen subgroups_removed_first_gen collision_defaults_overwrite_gen subgroup_select_gen.
 
 (* finite side conditions on the facts, by computation *)
-Lemma skips_ok_gen : skips_ok wrapper_skips_gen setup_skips_gen post_skips_gen subgroups_removed_first_gen = true.
+Lemma skips_ok_gen : skips_ok wrapper_skips_gen setup_skips_gen post_skips_gen subgroup_select_gen subgroups_removed_first_gen = true.
 Proof. vm_compute. reflexivity. Qed.
 Lemma collision_err_is : collision_err_gen = Raise "RuntimeError".
 Proof. vm_compute. reflexivity. Qed.
 Lemma collision_defaults_ok : collision_defaults_overwrite_gen = true.
 Proof. vm_compute. reflexivity. Qed.
+(* shape facts: set-up runs once and registers exactly the wrappers post-processing walks; an action's dest is its
+   field's dest; a parser built without config keywords declares nothing by itself; set_defaults hands entries for
+   existing wrappers to the wrapper *)
+Lemma ties_hold :
+  setup_once_same_wrappers_gen = true /\ generated_dest_is_field_dest_gen = true /\ config_arg_by_default_gen = false
+  /\ set_defaults_routes_gen = true.
+Proof. vm_compute. repeat split; reflexivity. Qed.
 (* the help action is installed exactly when add_help is true *)
 Lemma help_as_argparse : forall b, help_installed_gen b = b.
 Proof. intros []; vm_compute; reflexivity. Qed.
@@ -581,7 +592,7 @@ Section AnyArgparse.
     sp_known_gen AP None parents plain forest argv =
     match AP (sp_actions parents_site_gen parents plain (generated_gen forest)) argv with
     | Err e => Err e
-    | Ok (n, ex) => match post_gen forest (default_keys (sp_actions parents_site_gen parents plain (generated_gen forest))) n with
+    | Ok (n, ex) => match post_gen forest (default_keys_gen (sp_actions parents_site_gen parents plain (generated_gen forest))) n with
                     | Ok n' => Ok (n', ex) | Err e => Err e end
     end.
   Proof. reflexivity. Qed.
@@ -589,7 +600,7 @@ Section AnyArgparse.
   Lemma known_inv pre parents plain forest argv n' ex :
     sp_known_gen AP pre parents plain forest argv = Ok (n', ex) ->
     pre = None /\ exists n, AP (sp_actions parents_site_gen parents plain (generated_gen forest)) argv = Ok (n, ex)
-      /\ post_gen forest (default_keys (sp_actions parents_site_gen parents plain (generated_gen forest))) n = Ok n'.
+      /\ post_gen forest (default_keys_gen (sp_actions parents_site_gen parents plain (generated_gen forest))) n = Ok n'.
   Proof.
     destruct pre as [e|]; [discriminate|]. rewrite known_unfold. intros H. split; [reflexivity|].
     destruct (AP _ argv) as [[n ex0]|e]; [|discriminate]. exists n.
@@ -601,13 +612,13 @@ Section AnyArgparse.
     match AP (sp_actions parents_site_gen parents plain (generated_gen forest)) argv with
     | Err e => sp_known_gen AP None parents plain forest argv = Err e
     | Ok (n, ex) =>
-        post_clean_gen forest (default_keys (sp_actions parents_site_gen parents plain (generated_gen forest))) n = true ->
+        post_clean_gen forest (default_keys_gen (sp_actions parents_site_gen parents plain (generated_gen forest))) n = true ->
         exists n', sp_known_gen AP None parents plain forest argv = Ok (n', ex)
           /\ forall ks, names_disjoint ks forest = true -> restrict ks n' = restrict ks n
     end.
   Proof.
     rewrite known_unfold. destruct (AP _ argv) as [[n ex]|e]; [|reflexivity].
-    intros Hc. destruct (post_ok _ post_skips_gen _ collision_err_gen _ _ _ _ Hc) as [n' E]. exists n'.
+    intros Hc. destruct (post_ok _ post_skips_gen _ collision_err_gen _ _ suppress_empty_none_gen _ _ _ Hc) as [n' E]. exists n'.
     unfold post_gen. rewrite E. split; [reflexivity|].
     intros ks Hks. eapply post_restrict; [|exact E]. apply names_disjoint_spec. exact Hks.
   Qed.
@@ -637,11 +648,11 @@ Section AnyArgparse.
   Proof.
     intros H Hd Hns. assert (Hnl := no_leak _ _ _ _ _ _ _ H Hd).
     apply known_inv in H as [_ [n [Hap Hp]]]. exists n. split; [exact Hap|]. split; [|split; [|split]].
-    - intros k Hk. destruct (post_incl _ _ _ _ _ _ _ _ _ Hp k Hk) as [H1|H1]; [|right; exact H1].
+    - intros k Hk. destruct (post_incl _ _ _ _ _ _ _ _ _ _ _ Hp k Hk) as [H1|H1]; [|right; exact H1].
       destruct (in_dec string_dec k (reg_dests_gen forest)) as [Hr|Hr]; [|left; split; assumption].
       exfalso. apply (Hnl (mkact k KOpt)); [|exact Hk]. unfold generated_gen, generated. apply (in_map (fun d => mkact d KOpt)). exact Hr.
-    - exact (proj1 (post_present _ _ _ _ _ _ _ _ _ Hp Hns)).
-    - exact (proj2 (post_present _ _ _ _ _ _ _ _ _ Hp Hns)).
+    - exact (proj1 (post_present _ _ _ _ _ _ _ _ _ _ _ Hp Hns)).
+    - exact (proj2 (post_present _ _ _ _ _ _ _ _ _ _ _ Hp Hns)).
     - intros ks Hks. eapply post_restrict; [|exact Hp]. apply names_disjoint_spec. exact Hks.
   Qed.
 
@@ -650,22 +661,22 @@ Section AnyArgparse.
     AP (sp_actions parents_site_gen parents plain (generated_gen forest)) argv = Ok (n, ex) ->
     In (w, d) (top_pairs forest) -> w_suppress w = false ->
     In d (keys n) -> ~ In d (field_dests_gen forest) ->
-    str_in (hd "" (w_dests w)) (default_keys (sp_actions parents_site_gen parents plain (generated_gen forest))) = false ->
+    str_in (hd "" (w_dests w)) (default_keys_gen (sp_actions parents_site_gen parents plain (generated_gen forest))) = false ->
     str_nodupb (subgroup_dests_gen forest) && forallb (fun s => mem s n) (subgroup_dests_gen forest) = true ->
     sp_known_gen AP None parents plain forest argv = Err (Raise "RuntimeError").
   Proof.
     intros Hap Hin Hsup Hk Hnf Hdfl Hsg. rewrite known_unfold, Hap.
     apply andb_true_iff in Hsg as [Hnd Hall]. apply str_nodupb_NoDup in Hnd. rewrite forallb_forall in Hall.
-    destruct (remove_subgroups_ok wrapper_skips_gen subgroups_removed_first_gen forest n Hnd
+    destruct (remove_subgroups_ok wrapper_skips_gen subgroups_removed_first_gen subgroup_select_gen forest n Hnd
                 (fun s Hs => proj1 (mem_In _ _) (Hall s Hs))) as [n1 E1].
     unfold post_gen, post. fold remove_subgroups_gen. unfold remove_subgroups_gen. rewrite E1.
     unfold instantiate.
-    rewrite (inst_all_collision wrapper_skips_gen collision_err_gen collision_defaults_overwrite_gen forest _ n1 _ _ w d Hin);
+    rewrite (inst_all_collision wrapper_skips_gen post_skips_gen collision_err_gen collision_defaults_overwrite_gen suppress_empty_none_gen forest _ n1 _ _ w d Hin);
       [rewrite collision_err_is; reflexivity | | exact Hsup | rewrite Hdfl; apply andb_false_r].
     unfold fill. apply fold_fill_keep.
     - intros wf Hwf E. apply Hnf. rewrite <- E. unfold field_dests_gen, field_dests. apply (in_map (fun wf => f_dest (snd wf))). exact Hwf.
-    - apply (remove_subgroups_keep _ _ _ _ _ d E1); [|exact Hk].
-      intros Hs. apply Hnf. apply subgroup_dests_field_dests. exact Hs.
+    - apply (remove_subgroups_keep _ _ _ _ _ _ d E1); [|exact Hk].
+      intros Hs. apply Hnf. apply (subgroup_dests_field_dests _ subgroup_select_gen). exact Hs.
   Qed.
 
   (* parse_args *)
@@ -681,7 +692,7 @@ End AnyArgparse.
 (* ====================================================================== *)
 Definition sp_known_at (site : psite) :=
   sp_known wrapper_skips_gen setup_skips_gen post_skips_gen subgroups_removed_first_gen collision_err_gen
-           collision_defaults_overwrite_gen site.
+           collision_defaults_overwrite_gen site subgroup_select_gen suppress_empty_none_gen set_defaults_routes_gen.
 
 (* the reference: argparse.ArgumentParser(parents=[..]) with the same declarations and stand-ins for the dataclass options,
    followed by the clean-up *)
@@ -692,7 +703,7 @@ Definition argparse_then_post (AP : list action -> list string -> res (nsp * lis
   | None =>
       match ap_known_gen AP parents plain forest argv with
       | Err e => Err e
-      | Ok (n, ex) => match post_gen forest (default_keys (ap_actions parents plain (generated_gen forest))) n with
+      | Ok (n, ex) => match post_gen forest (default_keys_gen (ap_actions parents plain (generated_gen forest))) n with
                       | Ok n' => Ok (n', ex) | Err e => Err e end
       end
   end.
@@ -777,13 +788,17 @@ Proof.
   injection E as <- <-. split; [exact Hw|]. unfold w_fields in Hf. apply filter_In in Hf. tauto.
 Qed.
 
+(* _get_subgroup_fields selects exactly the subgroups(...) fields *)
+Lemma subgroup_select_is : forall f, existsb (static_holds f) subgroup_select_gen = f_subgroup f.
+Proof. intros f. unfold subgroup_select_gen. simpl. apply orb_false_r. Qed.
+
 Lemma sg_key_has forest k : In k (sg_key_gen forest) -> has_subgroups forest = true /\ k = "subgroups".
 Proof.
   unfold sg_key_gen, sg_key. destruct subgroups_removed_first_gen; [|intros []].
-  destruct (subgroup_dests wrapper_skips_gen forest) as [|d0 r] eqn:E; [intros []|]. intros [<-|[]]. split; [|reflexivity].
-  assert (Hd : In d0 (subgroup_dests wrapper_skips_gen forest)) by (rewrite E; left; reflexivity).
-  unfold subgroup_dests in Hd. apply in_map_iff in Hd as [[w f] [_ Hf]]. apply filter_In in Hf as [Hp Hs]. simpl in Hs.
-  apply pairs_in in Hp as [Hw Hfa]. unfold has_subgroups. apply existsb_exists. exists w. split; [exact Hw|].
+  destruct (subgroup_dests wrapper_skips_gen subgroup_select_gen forest) as [|d0 r] eqn:E; [intros []|]. intros [<-|[]]. split; [|reflexivity].
+  assert (Hd : In d0 (subgroup_dests wrapper_skips_gen subgroup_select_gen forest)) by (rewrite E; left; reflexivity).
+  unfold subgroup_dests in Hd. apply in_map_iff in Hd as [[w f] [_ Hf]]. apply filter_In in Hf as [Hp Hs]. cbn [snd] in Hs.
+  rewrite subgroup_select_is in Hs. apply pairs_in in Hp as [Hw Hfa]. unfold has_subgroups. apply existsb_exists. exists w. split; [exact Hw|].
   apply existsb_exists. exists f. split; assumption.
 Qed.
 
@@ -815,7 +830,7 @@ Theorem meets_spec AP parents plain forest argv declared :
   parents = [] \/ parents_site_gen = PInit ->
   dotted_apart forest = true -> no_unregistered forest = true -> sg_consistent forest = true ->
   match ap_known_gen AP parents plain forest argv with
-  | Ok (n, _) => post_clean_gen forest (default_keys (ap_actions parents plain (generated_gen forest))) n = true
+  | Ok (n, _) => post_clean_gen forest (default_keys_gen (ap_actions parents plain (generated_gen forest))) n = true
   | Err _ => True
   end ->
   spec_run declared (reg_dests_gen forest) (top_dests forest) (sup_top_dests forest) (has_subgroups forest)
@@ -826,7 +841,7 @@ Proof.
   unfold spec_run. destruct (overlap declared _); [reflexivity|].
   rewrite known_unfold, (actions_agree _ _ _ Hpar). unfold ap_known_gen, ap_known in *. fold generated_gen in *.
   destruct (AP (ap_actions parents plain (generated_gen forest)) argv) as [[n ex]|e]; [|apply err_eqb_refl].
-  destruct (post_ok _ post_skips_gen _ collision_err_gen _ _ _ _ Hclean) as [n' E]. unfold post_gen. rewrite E.
+  destruct (post_ok _ post_skips_gen _ collision_err_gen _ _ suppress_empty_none_gen _ _ _ Hclean) as [n' E]. unfold post_gen. rewrite E.
   set (extra := (top_dests forest ++ (if has_subgroups forest then ["subgroups"] else []))%list).
   destruct (overlap (plain_keys_of (reg_dests_gen forest) n) extra) eqn:Eov; [reflexivity|].
   assert (Hov := overlap_false _ _ Eov).
@@ -848,18 +863,18 @@ Proof.
     rewrite <- (lookup_restrict k [k] n (or_introl eq_refl)), <- Hr, (lookup_restrict k [k] n' (or_introl eq_refl)).
     apply opt_nval_eqb_refl.
   - apply forallb_forall. intros k Hk. apply str_in_In. apply in_or_app.
-    destruct (post_incl _ _ _ _ _ _ _ _ _ E k Hk) as [H1|[H1|H1]].
+    destruct (post_incl _ _ _ _ _ _ _ _ _ _ _ E k Hk) as [H1|[H1|H1]].
     + left. unfold plain_keys_of. apply filter_In. split; [exact H1|]. apply negb_true_iff, str_in_false.
       intros Hr. exact (Hnl k Hr Hk).
     + right. apply Hsgx. exact H1.
     + right. unfold extra. apply in_or_app. left. exact H1.
   - apply forallb_forall. intros k Hk. apply filter_In in Hk as [Hke Hks]. apply negb_true_iff, str_in_false in Hks.
-    apply mem_In. destruct (post_present _ _ _ _ _ _ _ _ _ E Hnsg) as [Psg Ptop].
+    apply mem_In. destruct (post_present _ _ _ _ _ _ _ _ _ _ _ E Hnsg) as [Psg Ptop].
     unfold extra in Hke. apply in_app_or in Hke as [Hke|Hke].
     + destruct (top_pair_of _ _ Hke) as [w Hw]. apply (Ptop w k Hw).
       destruct (w_suppress w) eqn:Es; [|reflexivity]. exfalso. apply Hks. exact (sup_top_of _ _ _ Hw Es).
     + destruct (has_subgroups forest) eqn:Eh; [|destruct Hke]. destruct Hke as [<-|[]].
       apply Psg. apply eqb_prop in Hsg. fold sg_key_gen in *.
       unfold sg_key_gen, sg_key in *. destruct subgroups_removed_first_gen; [|discriminate].
-      destruct (subgroup_dests wrapper_skips_gen forest); [discriminate | left; reflexivity].
+      destruct (subgroup_dests wrapper_skips_gen subgroup_select_gen forest); [discriminate | left; reflexivity].
 Qed.
